@@ -87,6 +87,8 @@ def main():
         old = json.load(open(os.path.join(d, 'meta.json')))
         if old.get('checked_by'):
             meta['checked_by'] = old['checked_by']      # the check of another property catches it (set by hand)
+        if old.get('not_caught'):
+            meta['not_caught'] = old['not_caught']      # a recorded miss (set by hand)
     except (OSError, ValueError):
         pass
     with open(os.path.join(d, 'meta.json'), 'w') as f:
